@@ -242,12 +242,15 @@ class Report:
                                            if o["verdict"] == smt.PROVED})
             with open(path, "w") as f:
                 json.dump(base, f, indent=1, sort_keys=True)
-        if self.broken:
+        if self.failed:
+            # a reported violation wins: after a failed obligation the path
+            # continues under a contradictory assumption, so canaries on it
+            # may verify vacuously
+            code = 1
+        elif self.broken:
             for b in self.broken:
                 print(f"CHECKER-BROKEN property={self.pid} {b}")
             code = 3
-        elif self.failed:
-            code = 1
         elif self.unknown:
             code = 2
         else:
